@@ -29,6 +29,7 @@ func init() {
 			need(m, &out, "bit_flips_applied", 80000)
 			need(m, &out, "random_corruptions_applied", 10000)
 			need(m, &out, "uncorrupted_units_delivered", 60)
+			need(m, &out, "sections_of_maximal_length", 20)
 			need(m, &out, "outcome_error_or_nothing", 50000)
 			need(m, &out, "muxer_sections_checked", 2000)
 			need(m, &out, "written_psi_sections_checked", 300)
@@ -201,7 +202,41 @@ func flipRegion(cu *c09unit, off int) string {
 	return "stuffing"
 }
 
+// maxSizeSections: valid sections whose section_length is exactly the largest value the table allows (and the two below), alone in
+// their unit and corrupted in a few places: the largest legal section is delivered like any other.
+func maxSizeSections(c *mon.Ctx) {
+	n := c.Pick(36, 1200)
+	for i := int64(0); i < n; i++ {
+		if !c.Mine("max-size", i) {
+			continue
+		}
+		r := c.Rng("max-size", i)
+		kind := kindsAll[i%6]
+		length := gen.MaxSectionLength(kind) - int(i/6)%3
+		sec := gen.ExactSection(r, kind, length)
+		if sec == nil {
+			continue
+		}
+		cu := &c09unit{kind: kind, pid: gen.PIDFor(kind)}
+		cu.u = gen.NewPSIUnit(r, cu.pid, 0, []*astits.PSISection{sec}, 0, true)
+		if kind == refts.KindPMT {
+			pat := gen.PATFor(r, cu.pid)
+			cu.prefix = gen.Mux(map[uint16][]*gen.Unit{0: {pat}}, []uint16{0}, nil).Bytes
+		}
+		cu.judge(c, "max-size", i, cu.u.Payload, "none", false)
+		c.Count("sections_of_maximal_length")
+		c.Seen("maximal_length_kinds", kind.String())
+		for k := 0; k < 6; k++ {
+			pl := append([]byte{}, cu.u.Payload...)
+			off := r.IntN(len(pl))
+			pl[off] ^= 1 << uint(r.IntN(8))
+			cu.judge(c, "max-size", i, pl, "bitflip-"+flipRegion(cu, off), true)
+		}
+	}
+}
+
 func runC09(c *mon.Ctx) {
+	maxSizeSections(c)
 	// (in) exhaustive bit flips
 	nu := c.Pick(216, 20000)
 	for i := int64(0); i < nu; i++ {
